@@ -118,6 +118,8 @@ class PT:
             pos = [i for i, m in enumerate(mask) if m]
             src = self
             return PT((len(pos),) + self.shape[1:], lambda idx: src.fn((_pick(pos, idx[0]),) + tuple(idx[1:])), self.kind)
+        if isinstance(k, list) and k and all(isinstance(x, int) and not isinstance(x, bool) for x in k):
+            k = _np.asarray(k)
         if isinstance(k, _np.ndarray) and _np.issubdtype(k.dtype, _np.integer) and k.ndim == 1:
             pos = [int(x) for x in k.tolist()]
             src = self
